@@ -149,6 +149,12 @@ func (p c07) RunBatch(c *fw.Ctx) {
 			}
 		}
 	}
+	// an entry deleted from a small map must leave nothing behind that later hashing or comparing trips on
+	for _, a := range V {
+		for _, use := range []string{"(x => len(x))(m)", "[m] == [m]", "{m: 1}", "m == {1: 1}", "f = x => x; f(m); f(m)", "m < m", "println(m)"} {
+			table = append(table, "m = {1: 1, 2: "+a+"}; del(m[2]); "+use, "m = {"+a+": 1, 1: 2}; del(m["+a+"]); "+use)
+		}
+	}
 	for i, src := range table {
 		if i%c.NBatches == c.Batch {
 			p.run(c, src)
